@@ -637,6 +637,12 @@ pub fn evaluate_ast(
                 PostfixOp::Factorial => {
                     let n = val.as_number()?;
                     if n >= 0.0 && n == (n as u64) as f64 {
+                        if n > 170.0 {
+                            // 171! already exceeds f64::MAX; returning infinity directly also
+                            // avoids `(n as u64) + 1` overflowing for n = 2^64 and a product
+                            // loop of up to 2^64 iterations.
+                            return Ok(Number(f64::INFINITY));
+                        }
                         Ok(Number(
                             (1..(n as u64) + 1).map(|x| x as f64).product::<f64>(),
                         ))
